@@ -44,7 +44,8 @@ TRUSTED = ["hand-written model IsoVerif/Model/Counter.lean of src/long_read_coun
 ASSUMPTIONS = ["Python float sums of 1.0/k are compared with the model's exact rationals within 1e-9",
                "printed %.2f / %.6f values are compared with the model's round-half-even rendering; at an exact tie of the "
                "exact value (…5 in the next digit) one quantum is allowed because the double nearest to the rational decides",
-               "feature ids are non-empty strings that do not start with '#' (read as a header line by merge_files)",
+               "feature ids are non-empty strings without tab / newline (ids starting with '#' are INSIDE the domain and generated: "
+               "the header of a counts file is its first line only)",
                "a record typed unique at the extractor's level has at most one distinct feature (list(set)[0] is hash-order "
                "otherwise); the assigner and the resolver never produce another shape",
                "combine_counts: feature ids are non-empty (ids in pandas' default NA set - 'NA', 'null', 'nan', 'None', 'N/A' ... - "
@@ -101,9 +102,10 @@ def parse_counts_file(path):
     """-> rows [[feature, hundredths]], stats {name: int}"""
     rows, stats = [], {}
     with open(path) as f:
-        for l in f:
+        for i, l in enumerate(f):
             l = l.rstrip("\n")
-            if l.startswith("#") or not l:
+            # the header is the FIRST line (format_header); a feature id may itself start with '#'
+            if (i == 0 and l.startswith("#feature_id\t")) or not l:
                 continue
             p = l.split("\t")
             if p[0].startswith("__") and p[0] in ("__ambiguous", "__no_feature", "__not_aligned", "__usable"):
@@ -117,9 +119,9 @@ def parse_tpm_file(path):
     """-> rows [[feature, Decimal]], unassigned Decimal|None"""
     rows, un = [], None
     with open(path) as f:
-        for l in f:
+        for i, l in enumerate(f):
             l = l.rstrip("\n")
-            if l.startswith("#") or not l:
+            if (i == 0 and l.startswith("#feature_id\t")) or not l:
                 continue
             p = l.split("\t")
             if p[0] == "__unassigned":
@@ -337,6 +339,18 @@ def gen_merge_cases(ctx, mode_weights=(0.7, 0.3)):
         cases.append({"id": 100001 + j, "s": "unique_only", "lvl": "transcript", "output_zeroes": True, "norm": "simple",
                       "unaligned": 0, "parts": [{"chr": c, "complete": [], "events": one(c + ".T")} for c in order],
                       "kind": "realistic+raw"})
+    # the Lean witnesses `merge_hash_witness` / `tpm_hash_witness` (Props/C02Merge.lean): a feature id starting with '#'
+    # is the first row of its part file; on the second part (chr2: the header test by content dropped the row in the
+    # merge) and on the first part (chr1: the row survived the merge and was copied into the TPM file as a header line)
+    many = lambda fs: [e for f, n in fs for e in [{"k": "raw", "noid": False, "fs": [f]}] * n] + \
+        [{"k": "confirm", "fs": [f for f, _ in fs]}]
+    for j, (p1, p2) in enumerate(((([("A1", 3), ("B1", 2)]), [("#G2", 4), ("C2", 1)]),
+                                  ([("#count7", 4), ("A1", 3)], [("C2", 1)]))):
+        for k, norm in enumerate(("simple", "usable_reads")):
+            cases.append({"id": 100003 + 2 * j + k, "s": "unique_only", "lvl": "transcript", "output_zeroes": True, "norm": norm,
+                          "unaligned": 0, "kind": "realistic+raw",
+                          "parts": [{"chr": "chr1", "complete": [], "events": many(p1)},
+                                    {"chr": "chr2", "complete": [], "events": many(p2)}]})
     for i in range(80 if quick else 1000):
         lvl = rng.choice(LEVELS)
         chrs = rng.sample(CHR_POOL, rng.randint(1, 5))     # rng.sample: an arbitrary (unsorted) chr_ids order
@@ -705,10 +719,92 @@ def tpm_clauses(count_rows, tpm_rows, unassigned, norm, usable, output_zeroes):
     return fails
 
 
+def forward_consistent(case):
+    """read_assignment_counts[r] = number of listings of r in transcript_read_ids (what save_assigned_read maintains)"""
+    n = defaultdict(int)
+    for m, rs in case["tr"]:
+        for r in rs:
+            n[r] += 1
+    cnt = dict((r, c) for r, c in case["cnt"])
+    return all(cnt.get(r) == k for r, k in n.items()) and all(c == 0 or r in n for r, c in cnt.items())
+
+
+def oracle_forward_case(case, strategy, d, tag):
+    """the real forward_counts feeding a real transcript-model counter (output_zeroes=False, as the pipeline builds it):
+    every model row must be the sum over READS of the documented weight - 1 for a read listed under one model (however
+    many alignment records list it), 1/k for a read shared by k DISTINCT models when ambiguous reads are counted, else
+    0 - and __ambiguous the number of reads shared by >= 2 models"""
+    vlib.repo_on_path()
+    from src.graph_based_model_construction import GraphBasedModelConstructor as GB
+    fails = []
+    c = make_counter(d, "fw%s.transcript_model" % tag, "transcript", strategy, [], False)
+    tr = defaultdict(list)
+    for m, rs in case["tr"]:
+        tr[m] = [SimpleNamespace(read_id=r, read_group="NA") for r in rs]
+    cnt = defaultdict(int)
+    for r, k in case["cnt"]:
+        cnt[r] = k
+    me = SimpleNamespace(transcript_read_ids=tr, read_assignment_counts=cnt, transcript_counter=c,
+                         transcript_model_storage=[SimpleNamespace(transcript_id=m) for m in case["models"]])
+    try:
+        GB.forward_counts(me)
+        c.dump()
+    except IMPL_ERRORS:
+        return fails
+    rows, _ = parse_counts_file(c.output_counts_file_name)
+    _, stats = parse_counts_file(c.output_stats_file_name)
+    models_of = defaultdict(list)
+    for m, rs in case["tr"]:
+        for r in rs:
+            if m not in models_of[r]:
+                models_of[r].append(m)
+    sums = defaultdict(Fraction)
+    n_amb = 0
+    for r, ms in models_of.items():
+        k = len(ms)
+        if k > 1:
+            n_amb += 1
+        w = Fraction(1) if k == 1 else (Fraction(1, k) if strategy in USE_AMB else Fraction(0))
+        for m in ms:
+            sums[m] += w
+    table = dict((f, h) for f, h in rows)
+    for m, v in sums.items():
+        if m not in case["models"]:
+            continue
+        if not printed_ok(table.get(m, 0), v, 100):
+            fails.append(("dup_read_model_weight" if any(len(rs) != len(set(rs)) for _, rs in case["tr"]) else "table_not_sum",
+                          "model %s printed %s/100, sum over its reads %s" % (m, table.get(m, 0), v)))
+    if stats.get("__ambiguous") != n_amb:
+        fails.append(("dup_read_model_weight" if any(len(rs) != len(set(rs)) for _, rs in case["tr"]) else "stats_lines",
+                      "__ambiguous %s, reads shared by >= 2 models %d" % (stats.get("__ambiguous"), n_amb)))
+    return fails
+
+
+# the Lean witness `forward_dup_witness` (Props/C02Forward.lean, audit probe C02_dupread_model.py)
+DUP_GENE = {"tr": [["M1", ["r10", "r20", "r20"]], ["M2", ["r11"]]], "cnt": [["r10", 1], ["r20", 2], ["r11", 1]],
+            "models": ["M1", "M2"]}
+
+
 def oracle(ctx, disagreements, broken):
     d = vlib.scratch_dir("isoverif_c02o_")
     n = 0
     try:
+        # 0. forward_counts -> real model counter: the disagreeing inputs, the fixed witness, the generator (consistent
+        #    counts only: that is the domain the constructor maintains)
+        fw = [dis["input"] for dis in disagreements if dis["op"] == "forward_counts" and isinstance(dis["input"], dict)][:40]
+        fw.append(DUP_GENE)
+        fw += [G.forward_counts_case(ctx.rng, consistent=True) for _ in range(150 if ctx.tier == "quick" else 1500)]
+        nfw = 0
+        for i, fc in enumerate(fw):
+            if not forward_consistent(fc):
+                continue
+            for strategy in ("unique_only", "with_ambiguous"):
+                nfw += 1
+                for kind, detail in oracle_forward_case(fc, strategy, d, "%d%s" % (i, strategy[0])):
+                    ctx.fail(kind, {"mode": "forward", "case": fc, "strategy": strategy}, detail)
+            if len(ctx.failures) > 30:
+                break
+        ctx.extra["oracle_forward_cases"] = nfw
         # 1. the disagreeing inputs first
         seeds = []
         for dis in disagreements:
@@ -798,6 +894,8 @@ def replay(ctx, failure):
     inp = failure["input"]
     d = vlib.scratch_dir("isoverif_c02r_")
     try:
+        if inp.get("mode") == "forward":
+            return any(k == failure["kind"] for k, _ in oracle_forward_case(inp["case"], inp["strategy"], d, "r"))
         if inp.get("mode") == "inproc":
             fails = oracle_merge_case(dict(inp["case"], id=1), d)
             return any(k == failure["kind"] for k, _ in fails)
